@@ -27,6 +27,10 @@ type InterfaceMethod struct {
 	// Sig is the method's signature as seen by the type checker (nil for hand-built models).
 	// When both sides carry it, signatures are compared by Go's own type identity.
 	Sig *types.Signature
+
+	// PkgPath qualifies an unexported method name: Go treats unexported methods of different
+	// packages as different methods even when they are spelled the same. Empty for exported names.
+	PkgPath string
 }
 
 // InterfaceType
@@ -135,10 +139,20 @@ func extractMethodsFromInterface(iface *types.Interface) []InterfaceMethod {
 			Inputs:  extractTypesFromTuple(sig.Params(), sig.Variadic()),
 			Outputs: extractTypesFromTuple(sig.Results(), false),
 			Sig:     sig,
+			PkgPath: unexportedMethodPkg(method),
 		})
 	}
 
 	return methods
+}
+
+// unexportedMethodPkg returns the path of the package an unexported method name belongs to
+// ("" for exported methods, whose names are not package-qualified).
+func unexportedMethodPkg(method *types.Func) string {
+	if method.Exported() || method.Pkg() == nil {
+		return ""
+	}
+	return method.Pkg().Path()
 }
 
 // extractTypesFromTuple converts types.Tuple to InterfaceType slice
